@@ -40,7 +40,11 @@ theorem decisionIsRankRevealing :
 /-- **the Gram-matrix certificates are sound up to their slack.**  Contract (only available for the kind
 `smallestEigenvalue`): the computed decision quantity is within `δ` of the exact smallest eigenvalue `lamMin` of the Gram matrix;
 for a linearly dependent family `lamMin = 0` (`gram_lambda_min_zero`); if `δ ≤ zero_eps` — **hypothesis, not provable: adequacy of
-the absolute threshold against the rounding of `eigvalsh`** — the certificate is not issued. -/
+the absolute threshold against the rounding of `eigvalsh`** — the certificate is not issued.  (The kind hypothesis `_hkind` is not used by
+the proof: it is a convention that ties the contract `|computed − λ_min| ≤ δ` to the routine found in the source; the logical guard is the
+separate obligation `decisionIsRankRevealing`, and since round 6b the translator grants that kind only to the smallest entry of
+`numpy/scipy.linalg.eigvalsh(G)` / `eigh(G)[0]` with `G` a name bound exactly once at top level, while the harness ties `G` by value to the
+model's Gram matrix.) -/
 theorem hierarchyCert_sound (computed lamMin δ zero_eps : ℝ)
     (_hkind : hierarchyCertKind = DecisionKind.smallestEigenvalue ∧ abcCertKind = DecisionKind.smallestEigenvalue)
     (hsing : lamMin = 0) (hround : |computed - lamMin| ≤ δ) (hslack : δ ≤ zero_eps) :
